@@ -29,6 +29,7 @@ theorem wstable_frame (w0 : World) : WStable (Frame w0) where
     obtain ⟨h1, h2, h3, h4, h5⟩ := h
     obtain ⟨s1, _, s3, _⟩ := setCurNet_spec w n h1
     exact ⟨nets_ne_of_length h1 s1, s1.trans h2, s3.trans h3, h4, h5⟩
+  log := fun _ _ _ h => h
 
 theorem frame_cancel (w0 : World) (w : World) (h : Frame w0 w) : Frame w0 w.cancelFut := by
   obtain ⟨h1, h2, h3, h4, h5⟩ := h
@@ -119,25 +120,25 @@ theorem cancelFut_fut (w : World) : w.cancelFut.fut = none := by
   · rfl
   · rename_i h; simpa using h
 
-theorem PhaseV_none_cases {v : View} (h : PhaseV v none) : (v.live = true ∧ FlushPre v) ∨ (v.live = false ∧ Pfx v.wire) := by
+theorem PhaseV_none_cases {v : View} (h : PhaseV v none) : (v.live = true ∧ FlushPre v) ∨ (v.live = false ∧ DeadOK v) := by
   simp only [PhaseV] at h
   split at h
   · rename_i hl; exact Or.inl ⟨hl, h⟩
   · rename_i hl; exact Or.inr ⟨by simpa using hl, h⟩
 
-theorem PhaseV_none_pfx {v : View} (h : PhaseV v none) : Pfx v.wire := by
+theorem PhaseV_none_pfx {v : View} (h : PhaseV v none) : DeadOK v := by
   rcases PhaseV_none_cases h with ⟨_, hf⟩ | ⟨_, hp⟩
   · exact hf.pfx
   · exact hp
 
 theorem LocalFlushPre.flushPre {v : View} {which : Nat} (h : LocalFlushPre v which) (hw : which ≠ 0) : FlushPre v := by
-  obtain ⟨h1, h2, h3, h4, h5⟩ := h
-  rcases h4 with ⟨h0, _⟩ | ⟨_, hl, ha⟩
+  obtain ⟨h1, h2, h3, h4⟩ := h
+  rcases h4 with ⟨h0, _⟩ | ⟨_, ha, hl⟩
   · exact (hw h0).elim
-  · exact ⟨[], ⟨h1, hl, h2, h5⟩, .quiet h3, ha⟩
+  · exact ⟨[], hl, .quiet h3, ha⟩
 
 /-- Whatever is suspended, the current wire is whole packets and the beginning of one more. -/
-theorem PhaseV_pfx {v : View} {fut : Option Pc} (h : PhaseV v fut) : Pfx v.wire := by
+theorem PhaseV_pfx {v : View} {fut : Option Pc} (h : PhaseV v fut) : DeadOK v := by
   cases fut with
   | none => exact PhaseV_none_pfx h
   | some pc =>
@@ -163,8 +164,8 @@ theorem cancel_phase {v : View} {fut : Option Pc} (h : PhaseV v fut) (hnt : tear
     | stepWrite ctx pkt bytes written len now => obtain ⟨step, hp, _⟩ := h; exact PhaseV.live hp.flushPre
     | stepFlush ctx pkt now => obtain ⟨step, hp, _⟩ := h; exact PhaseV.live hp.flushPre
     | connWrite bytes => simp [tearsPacket] at hnt
-    | connFlush => exact PhaseV.dead (Mode.dead h.2.2.2.1) (LocalFlushPre.pfx h)
-    | connRead => exact PhaseV.dead (Mode.dead h.2.2.2.1) (LocalFlushPre.pfx h)
+    | connFlush => exact PhaseV.dead (LocalFlushPre.dead h) (LocalFlushPre.pfx h)
+    | connRead => exact PhaseV.dead (LocalFlushPre.dead h) (LocalFlushPre.pfx h)
     | q0Write bytes => simp [tearsPacket] at hnt
     | q0Flush => exact PhaseV.live (LocalFlushPre.flushPre h (by decide))
     | discWrite bytes => simp [tearsPacket] at hnt
@@ -228,6 +229,7 @@ theorem wstable_torn (t L : Nat) : WStable (fun x => x.nets ≠ [] ∧ x.nets.le
     obtain ⟨h1, h2, h3⟩ := h
     obtain ⟨s1, _, _, _⟩ := setCurNet_spec w n h1
     exact ⟨nets_ne_of_length h1 s1, s1.trans h2, h3⟩
+  log := fun _ _ _ h => h
 
 theorem CurTorn_of_stab {body : World → World} (hst : Stab body) (w : World) (hn : w.nets ≠ []) (h : CurTorn w) :
     CurTorn (body w) := by
@@ -326,13 +328,14 @@ theorem driveOp_post (w : World) (o : Outer) (h : PhaseV w.view none) : Post (dr
 theorem view_rx (w : World) (bytes : Bytes) (hn : w.nets ≠ []) :
     (w.setCurNet { w.curNet with rx := w.curNet.rx ++ bytes }).view = w.view := by
   obtain ⟨s1, s2, _, _⟩ := setCurNet_spec w { w.curNet with rx := w.curNet.rx ++ bytes } hn
-  simp only [World.view, s2, isEmpty_of_length s1]
+  have hlog : (w.setCurNet { w.curNet with rx := w.curNet.rx ++ bytes }).log = w.log := rfl
+  simp only [World.view, World.curLog, s1, s2, hlog, isEmpty_of_length s1]
   rfl
 
 theorem FlushPre.setPid {v : View} (h : FlushPre v) (n : Nat) (h1 : 1 ≤ n) (h2 : n ≤ 65535) :
     FlushPre { v with sess := v.sess.setPid n } := by
   obtain ⟨part, hl, ho, ha⟩ := h
-  exact ⟨part, hl.sess (closed_SP.setPid _ _ h1 h2 hl.sp), ho, ha⟩
+  exact ⟨part, hl.sess (SessOK.same hl (closed_SP.setPid _ _ h1 h2 hl.sp) rfl rfl), ho, ha⟩
 
 theorem dropConn_eq (w : World) :
     w.dropConn = if w.cancelFut.conn.isSome then { (w.cancelFut.emit "drop") with conn := none } else w.cancelFut := rfl
@@ -444,7 +447,7 @@ theorem exec_phase (w : World) (d : Directive) (hd : d ≠ .connect) (h : PhaseV
       split
       · show PhaseV { w.cancelFut.view with conn := none } w.cancelFut.fut
         rw [cancelFut_fut]
-        have hpf : Pfx w.cancelFut.view.wire := PhaseV_none_pfx hp
+        have hpf : DeadOK w.cancelFut.view := PhaseV_none_pfx hp
         exact PhaseV.dead rfl hpf
       · unfold Post; rw [cancelFut_fut]; exact hp
   | setpid n =>
@@ -494,7 +497,12 @@ theorem dropConn_tornNets (w : World) : w.dropConn.tornNets = w.cancelFut.tornNe
   rw [dropConn_eq]; split <;> rfl
 
 /-- `connect` up to its first return: the new transport satisfies the invariant whatever came before. -/
-theorem startConnect_post (w : World) (hsp : SP w.sess) : Post w.startConnect := by
+theorem connectStart_log (w : World) : w.connectStart.log = w.log := by
+  unfold World.connectStart World.dropConn World.cancelFut
+  simp only []
+  split <;> split <;> rfl
+
+theorem startConnect_post (w : World) (hsp : SP w.sess) (hlb : ∀ f ∈ w.log, f.net ≤ w.nets.length) : Post w.startConnect := by
   rw [startConnect_eq]
   obtain ⟨c1, c2, c3, _, c5, c6, _⟩ := connectStart_spec w
   have hsp1 : SP w.connectStart.sess := by rw [c1]; exact closed_SP.beginConnect _ hsp
@@ -503,18 +511,31 @@ theorem startConnect_post (w : World) (hsp : SP w.sess) : Post w.startConnect :=
   have hsp2 : SP (w.connectStart.sess.encode (connEnc w.connectStart.sess.connectPacket)).1 :=
     closed_SP.encodeConnect _ _ hsp1
   have hq2 := Quiet_encode w.connectStart.sess (connEnc w.connectStart.sess.connectPacket) hq1
-  have hv : ∀ S : Session, ({ w.connectStart with sess := S } : World).view = { sess := S, conn := none, net := true, wire := [] } := by
+  have hfresh2 : (w.connectStart.sess.encode (connEnc w.connectStart.sess.connectPacket)).1.data.outbound.AllFresh :=
+    (handshake_keeps_allFresh _ (by rw [c1]; exact beginConnect_allFresh _)).1 _
+  have hcl : w.connectStart.curLog = [] := by
+    unfold World.curLog
+    rw [connectStart_log, c2, List.filter_eq_nil_iff]
+    intro f hf
+    have := hlb f hf
+    simp only [List.length_append, List.length_cons, List.length_nil, beq_iff_eq]
+    omega
+  have hv : ∀ S : Session, ({ w.connectStart with sess := S } : World).view =
+      { sess := S, conn := none, net := true, wire := [], ord := w.nets.length + 1, log := [] } := by
     intro S
-    show View.mk S w.connectStart.conn (!w.connectStart.nets.isEmpty) w.connectStart.curNet.wire = _
-    rw [c6, c3, c2]; simp
+    show View.mk S w.connectStart.conn (!w.connectStart.nets.isEmpty) w.connectStart.curNet.wire w.connectStart.nets.length
+      w.connectStart.curLog = _
+    rw [c6, c3, c2, hcl]; simp
   simp only []
   split
-  · exact Post.dead_finishErr _ _ (by rw [hv]; rfl) (by rw [hv]; exact Pfx.nil)
+  · exact Post.dead_finishErr _ _ (by rw [hv]; rfl) (by rw [hv]; exact ⟨Pfx.nil, by simp [sers]⟩)
   · rename_i off len hres
     refine (machineW pollFuel).2.2.2.2.2.2.1 _ _ _ (φLW_poll _) ?_
     rw [hv]
     have hfr := encode_packet_framed w.connectStart.sess _ hsp1.arena hE hres
-    exact ⟨rfl, hsp2, hq2, Or.inl ⟨rfl, rfl⟩, [], WireIs.nil, by simpa using hfr⟩
+    have hcc := encode_packet_typ w.connectStart.sess _ hsp1.arena hE
+      (EncTyp_encodeWithOffset _ MT_Connect FLAGS_Connect (by decide)) hres
+    exact ⟨rfl, hsp2, hq2, Or.inl ⟨rfl, ⟨rfl, rfl, hfresh2⟩, by simpa using hfr, by rw [List.nil_append]; exact hcc⟩⟩
 
 theorem wstable_tornEq (T : List Nat) : WStable (fun x => x.tornNets = T) where
   emit := fun _ _ h => h
@@ -527,6 +548,7 @@ theorem wstable_tornEq (T : List Nat) : WStable (fun x => x.tornNets = T) where
   lastRes := fun _ _ h => h
   handles := fun _ _ h => h
   setCurNet := fun _ _ h => h
+  log := fun _ _ _ h => h
 
 theorem startConnect_frame (w : World) :
     w.startConnect.nets.length = w.nets.length + 1 ∧ w.startConnect.nets.dropLast = w.nets ∧
@@ -562,23 +584,94 @@ theorem startConnect_frame (w : World) :
       ((wmachine (wstable_tornEq _) pollFuel).2.2.2.2.2.2.1 _ _ _ hct)
 
 
+/-! ### The log only names transports that exist -/
+
+/-- Every log entry names a transport that has been opened. -/
+def LogB (w : World) : Prop := w.nets ≠ [] ∧ ∀ f ∈ w.log, f.net ≤ w.nets.length
+
+theorem wstable_logB : WStable LogB where
+  emit := fun _ _ h => h
+  sess := fun _ _ h => h
+  fut := fun _ _ h => h
+  conn := fun _ _ h => h
+  slot := fun _ _ h => h
+  starved := fun _ _ h => h
+  wakes := fun _ _ h => h
+  lastRes := fun _ _ h => h
+  handles := fun _ _ h => h
+  setCurNet := fun w n h => by
+    obtain ⟨h1, h2⟩ := h
+    obtain ⟨s1, _, _, _⟩ := setCurNet_spec w n h1
+    refine ⟨nets_ne_of_length h1 s1, ?_⟩
+    intro f hf
+    have : f ∈ w.log := hf
+    rw [s1]; exact h2 f this
+  log := fun w f hf h => by
+    refine ⟨h.1, ?_⟩
+    intro g hg
+    rcases List.mem_append.mp hg with hm | hm
+    · exact h.2 g hm
+    · simp only [List.mem_singleton] at hm; subst hm
+      exact Nat.le_of_eq hf
+
+/-- Log entries are added only for the current transport (ordinal `L`): the parts of the log that
+belong to other transports stay what they were in `l0`. -/
+def LogOld (L : Nat) (l0 : List LogEntry) (x : World) : Prop :=
+  x.nets ≠ [] ∧ x.nets.length = L ∧ ∀ k, k ≠ L → x.log.filter (fun f => f.net == k) = l0.filter (fun f => f.net == k)
+
+theorem wstable_logOld (L : Nat) (l0 : List LogEntry) : WStable (LogOld L l0) where
+  emit := fun _ _ h => h
+  sess := fun _ _ h => h
+  fut := fun _ _ h => h
+  conn := fun _ _ h => h
+  slot := fun _ _ h => h
+  starved := fun _ _ h => h
+  wakes := fun _ _ h => h
+  lastRes := fun _ _ h => h
+  handles := fun _ _ h => h
+  setCurNet := fun w n h => by
+    obtain ⟨h1, h2, h3⟩ := h
+    obtain ⟨s1, _, _, _⟩ := setCurNet_spec w n h1
+    exact ⟨nets_ne_of_length h1 s1, s1.trans h2, h3⟩
+  log := fun w f hf h => by
+    obtain ⟨h1, h2, h3⟩ := h
+    refine ⟨h1, h2, ?_⟩
+    intro k hk
+    have hne : (f.net == k) = false := by
+      rw [hf, h2]; simp; omega
+    show (w.log ++ [f]).filter _ = _
+    rw [List.filter_append, h3 k hk]
+    simp [List.filter_cons, hne]
+
+theorem logOld_cancel (L : Nat) (l0 : List LogEntry) (w : World) (h : LogOld L l0 w) : LogOld L l0 w.cancelFut := by
+  unfold World.cancelFut
+  split
+  · exact h
+  · exact h
+
+theorem logB_cancel (w : World) (h : LogB w) : LogB w.cancelFut := by
+  unfold World.cancelFut
+  split
+  · exact h
+  · exact h
+
 /-! ### The invariant of whole executions -/
 
 /-- Before the first `connect` nothing can run. -/
 theorem exec_netless (w : World) (d : Directive) (hd : d ≠ .connect) (hn : w.nets = []) (hc : w.conn = none) (hf : w.fut = none) :
     (w.execDirective d).nets = [] ∧ (w.execDirective d).conn = none ∧ (w.execDirective d).fut = none ∧
-    (w.execDirective d).tornNets = w.tornNets := by
+    (w.execDirective d).tornNets = w.tornNets ∧ (w.execDirective d).log = w.log := by
   cases d with
   | connect => exact (hd rfl).elim
   | tick us =>
     simp only [World.execDirective]
     split
-    · exact ⟨hn, hc, hf, rfl⟩
+    · exact ⟨hn, hc, hf, rfl, rfl⟩
     · rw [if_neg (by simp [hf])]
-      exact ⟨hn, hc, hf, rfl⟩
+      exact ⟨hn, hc, hf, rfl, rfl⟩
   | setpid n =>
     simp only [World.execDirective]
-    split <;> exact ⟨hn, hc, hf, rfl⟩
+    split <;> exact ⟨hn, hc, hf, rfl, rfl⟩
   | _ =>
     simp [World.execDirective, World.startOp, World.cancelFut, World.dropConn, World.emit, hc, hf, hn]
 
@@ -587,17 +680,24 @@ marked torn, carries whole packets and possibly the beginning of one more; `cur`
 transport is marked torn or satisfies the per-await-point invariant. -/
 structure WInv (w : World) : Prop where
   sp : SP w.sess
-  netless : w.nets = [] → w.conn = none ∧ w.fut = none
+  netless : w.nets = [] → w.conn = none ∧ w.fut = none ∧ w.log = []
   tornBound : ∀ i ∈ w.tornNets, i ≤ w.nets.length
   old : ∀ i net, i + 1 < w.nets.length → w.nets[i]? = some net → (i + 1) ∉ w.tornNets → Pfx net.wire
   cur : CurTorn w ∨ PhaseV w.view w.fut
+  logBound : ∀ f ∈ w.log, f.net ≤ w.nets.length
+  /-- On every earlier transport that is not marked torn, no retained packet went out twice, and they
+  went out in serial order. -/
+  oldLog : ∀ k, 1 ≤ k → k < w.nets.length → k ∉ w.tornNets →
+    (sers (w.log.filter (fun f => f.net == k))).Pairwise (· < ·)
 
 theorem WInv_init (cfg : Cfg) : WInv { sess := Session.new cfg } where
   sp := SP_new cfg
-  netless := fun _ => ⟨rfl, rfl⟩
+  netless := fun _ => ⟨rfl, rfl, rfl⟩
   tornBound := by intro i hi; simp at hi
   old := by intro i net hi; simp at hi
-  cur := Or.inr (PhaseV.dead rfl Pfx.nil)
+  cur := Or.inr (PhaseV.dead rfl ⟨Pfx.nil, by simp [World.view, World.curLog, sers]⟩)
+  logBound := by intro f hf; simp at hf
+  oldLog := by intro k _ hk; simp at hk
 
 theorem getElem?_of_dropLast_eq {l l' : List Net} (hl : l'.length = l.length) (hd : l'.dropLast = l.dropLast) (i : Nat)
     (hi : i + 1 < l.length) : l'[i]? = l[i]? := by
@@ -619,8 +719,54 @@ theorem exec_WInv (w : World) (d : Directive) (h : WInv w) : WInv (w.execDirecti
   by_cases hd : d = .connect
   · subst hd
     obtain ⟨f1, f2, f3, f4, _⟩ := startConnect_frame w
-    have hphase := startConnect_post w h.sp
-    · refine ⟨hsp', ?_, ?_, ?_, Or.inr hphase⟩
+    have hphase := startConnect_post w h.sp h.logBound
+    have hlb : ∀ f ∈ (w.execDirective .connect).log, f.net ≤ (w.execDirective .connect).nets.length := by
+      have hgoal : LogB w.startConnect := by
+        rw [startConnect_eq]
+        obtain ⟨_, c2, _⟩ := connectStart_spec w
+        have hb : ∀ S : Session, LogB ({ w.connectStart with sess := S } : World) := by
+          intro S
+          refine ⟨by show w.connectStart.nets ≠ []; rw [c2]; simp, ?_⟩
+          intro f hf
+          have hf' : f ∈ w.log := by rw [← connectStart_log w]; exact hf
+          have := h.logBound f hf'
+          show f.net ≤ w.connectStart.nets.length
+          rw [c2]; simp; omega
+        simp only []
+        split
+        · exact wstable_logB.finishErr _ _ _ (hb _)
+        · exact (wmachine wstable_logB pollFuel).2.2.2.2.2.2.1 _ _ _ (hb _)
+      exact hgoal.2
+    have hold : ∀ k, k ≠ w.nets.length + 1 →
+        (w.execDirective .connect).log.filter (fun f => f.net == k) = w.log.filter (fun f => f.net == k) := by
+      have hgoal : LogOld (w.nets.length + 1) w.log w.startConnect := by
+        rw [startConnect_eq]
+        obtain ⟨_, c2, _⟩ := connectStart_spec w
+        have hb : ∀ S : Session, LogOld (w.nets.length + 1) w.log ({ w.connectStart with sess := S } : World) := by
+          intro S
+          refine ⟨by show w.connectStart.nets ≠ []; rw [c2]; simp, by show w.connectStart.nets.length = _; rw [c2]; simp, ?_⟩
+          intro k _
+          show w.connectStart.log.filter _ = _
+          rw [connectStart_log]
+        simp only []
+        split
+        · exact (wstable_logOld _ _).finishErr _ _ _ (hb _)
+        · exact (wmachine (wstable_logOld _ _) pollFuel).2.2.2.2.2.2.1 _ _ _ (hb _)
+      exact hgoal.2.2
+    have holdLog : ∀ k, 1 ≤ k → k < (w.execDirective .connect).nets.length → k ∉ (w.execDirective .connect).tornNets →
+        (sers ((w.execDirective .connect).log.filter (fun f => f.net == k))).Pairwise (· < ·) := by
+      intro k hk1 hk hnt
+      have hlen : (w.execDirective .connect).nets.length = w.nets.length + 1 := f1
+      rw [hlen] at hk
+      rw [hold k (by omega)]
+      by_cases hlt : k < w.nets.length
+      · exact h.oldLog k hk1 hlt (fun hm => hnt (f3 _ hm))
+      · have heq : k = w.nets.length := by omega
+        subst heq
+        rcases h.cur with ht | hp
+        · exact (hnt (f3 _ ht)).elim
+        · exact (PhaseV_pfx hp).2
+    · refine ⟨hsp', ?_, ?_, ?_, Or.inr hphase, hlb, holdLog⟩
       · intro h0
         have : (w.execDirective .connect).nets.length = w.nets.length + 1 := f1
         rw [h0] at this; simp at this
@@ -645,12 +791,13 @@ theorem exec_WInv (w : World) (d : Directive) (h : WInv w) : WInv (w.execDirecti
           have hcur := curNet_of_last w i net heq hg'
           rcases h.cur with ht | hp
           · exact (hnt (f3 _ (by rw [heq]; exact ht))).elim
-          · have := PhaseV_pfx hp
+          · have := (PhaseV_pfx hp).1
             rw [← hcur]; exact this
   · by_cases hn : w.nets = []
-    · obtain ⟨hc, hf⟩ := h.netless hn
-      obtain ⟨e1, e2, e3, e4⟩ := exec_netless w d hd hn hc hf
-      refine ⟨hsp', fun _ => ⟨e2, e3⟩, ?_, ?_, Or.inr ?_⟩
+    · obtain ⟨hc, hf, hlog0⟩ := h.netless hn
+      obtain ⟨e1, e2, e3, e4, e5⟩ := exec_netless w d hd hn hc hf
+      refine ⟨hsp', fun _ => ⟨e2, e3, e5.trans hlog0⟩, ?_, ?_, Or.inr ?_, by rw [e5, e1, ← hn]; exact h.logBound,
+        by intro k _ hk; rw [e1] at hk; simp at hk⟩
       · intro i hi
         rw [e4] at hi
         have := h.tornBound i hi
@@ -662,16 +809,23 @@ theorem exec_WInv (w : World) (d : Directive) (h : WInv w) : WInv (w.execDirecti
         refine PhaseV.dead ?_ ?_
         · show View.live (World.view _) = false
           simp only [World.view, View.live, e2]
-        · show Pfx (World.curNet _).wire
-          simp only [World.curNet, e1]
-          exact Pfx.nil
+        · refine ⟨?_, ?_⟩
+          · show Pfx (World.curNet _).wire
+            simp only [World.curNet, e1]
+            exact Pfx.nil
+          · show (sers (World.curLog _)).Pairwise (· < ·)
+            simp [World.curLog, e5, hlog0, sers]
     · have hfr : Frame w (w.execDirective d) :=
         wexec_noconnect (wstable_frame w) w (frame_cancel w w) (fun _ _ h => h) d (fun he => hd he) (Frame.refl hn)
       obtain ⟨g1, g2, g3, g4, g5⟩ := hfr
+      have hlb : LogB (w.execDirective d) :=
+        wexec_noconnect wstable_logB w (logB_cancel w) (fun _ _ h => h) d (fun he => hd he) ⟨hn, h.logBound⟩
+      have hlo : LogOld w.nets.length w.log (w.execDirective d) :=
+        wexec_noconnect (wstable_logOld _ _) w (logOld_cancel _ _ w) (fun _ _ h => h) d (fun he => hd he) ⟨hn, rfl, fun _ _ => rfl⟩
       have hrest : ∀ (hcur : CurTorn (w.execDirective d) ∨ PhaseV (w.execDirective d).view (w.execDirective d).fut),
           WInv (w.execDirective d) := by
         intro hcur
-        refine ⟨hsp', fun h0 => (g1 h0).elim, ?_, ?_, hcur⟩
+        refine ⟨hsp', fun h0 => (g1 h0).elim, ?_, ?_, hcur, hlb.2, ?_⟩
         · intro i hi
           rw [g2]
           rcases g5 i hi with hm | rfl
@@ -681,6 +835,10 @@ theorem exec_WInv (w : World) (d : Directive) (h : WInv w) : WInv (w.execDirecti
           rw [g2] at hi
           rw [getElem?_of_dropLast_eq g2 g3 i hi] at hg
           exact h.old i net hi hg (fun hm => hnt (g4 _ hm))
+        · intro k hk1 hk hnt
+          rw [g2] at hk
+          rw [hlo.2.2 k (by omega)]
+          exact h.oldLog k hk1 hk (fun hm => hnt (g4 _ hm))
       rcases h.cur with ht | hp
       · apply hrest
         left
@@ -700,21 +858,76 @@ theorem run_WInv (ds : List Directive) (w : World) (h : WInv w) : WInv (ds.foldl
 
 /-! ### Reading the invariant -/
 
+theorem WireIs.unpack {lim : Option Nat} {wire part : Bytes} {logb : List Bytes} (h : WireIs lim wire logb part) :
+    ∃ frames : List Bytes, wire = frames.flatten ++ part ∧ (∀ f ∈ frames, Framed f) ∧ (∀ f ∈ frames.head?, IsConnect f) ∧
+      (∀ f ∈ frames.drop 1, Fits lim f.length) ∧ frames ≠ [] ∧ logb.Sublist (frames.drop 1) := by
+  obtain ⟨c, fs, hc, hcc, hf, hl, hw⟩ := h
+  refine ⟨c :: fs, by simp [hw], ?_, by simpa using hcc, fun f hm => (hf f (by simpa using hm)).2, by simp, by simpa using hl⟩
+  intro f hm
+  rcases List.mem_cons.mp hm with rfl | hm
+  · exact hc
+  · exact (hf f hm).1
+
 /-- What the invariant says about the wire of the current transport while the connection is live or
-the handshake is running: whole packets, then `part`, and `part` is accounted for either by the state
-of the queues or by the operation-local write that is suspended. -/
+the handshake is running: the CONNECT (once it is complete), whole packets within the Maximum Packet
+Size of this connection, then `part`; the packets of the log of this transport are among the whole
+packets, in order, and the log agrees with the retained queue; and `part` is accounted for either by
+the state of the queues or by the operation-local write that is suspended. -/
 theorem PhaseV_wire {v : View} {fut : Option Pc} (h : PhaseV v fut)
     (hact : v.live = true ∨ (v.conn = none ∧ fut.isSome = true)) :
-    ∃ part, WireIs v.wire part ∧
-      ((tearsPacket fut = false ∧ v.o.OState part) ∨
+    ∃ (frames : List Bytes) (part : Bytes), v.wire = frames.flatten ++ part ∧ (∀ f ∈ frames, Framed f) ∧
+      (∀ f ∈ frames.head?, IsConnect f) ∧ (∀ f ∈ frames.drop 1, Fits v.lim f.length) ∧ (v.live = true → frames ≠ []) ∧
+      (v.log.map (·.bytes)).Sublist (frames.drop 1) ∧ (v.live = true → v.o.Log v.ord v.log) ∧
+      ((tearsPacket fut = false ∧ v.o.OState v.ok part) ∨
        (∃ rest, (fut = some (.connWrite rest) ∨ fut = some (.q0Write rest) ∨ fut = some (.discWrite rest)) ∧
-          Framed (part ++ rest) ∧ v.o.Quiet)) := by
-  have ofFlush : ∀ {f : Option Pc}, tearsPacket f = false → FlushPre v → ∃ part, WireIs v.wire part ∧
-      ((tearsPacket f = false ∧ v.o.OState part) ∨
+          Framed (part ++ rest) ∧ v.o.Quiet ∧ (v.live = true → Fits v.lim (part ++ rest).length) ∧
+          (fut = some (.connWrite rest) → IsConnect (part ++ rest) ∧ frames = []))) := by
+  have ofFlush : ∀ {f : Option Pc}, tearsPacket f = false → FlushPre v →
+      ∃ (frames : List Bytes) (part : Bytes), v.wire = frames.flatten ++ part ∧ (∀ f ∈ frames, Framed f) ∧
+      (∀ f ∈ frames.head?, IsConnect f) ∧ (∀ f ∈ frames.drop 1, Fits v.lim f.length) ∧ (v.live = true → frames ≠ []) ∧
+      (v.log.map (·.bytes)).Sublist (frames.drop 1) ∧ (v.live = true → v.o.Log v.ord v.log) ∧
+      ((tearsPacket f = false ∧ v.o.OState v.ok part) ∨
        (∃ rest, (f = some (.connWrite rest) ∨ f = some (.q0Write rest) ∨ f = some (.discWrite rest)) ∧
-          Framed (part ++ rest) ∧ v.o.Quiet)) := by
+          Framed (part ++ rest) ∧ v.o.Quiet ∧ (v.live = true → Fits v.lim (part ++ rest).length) ∧
+          (f = some (.connWrite rest) → IsConnect (part ++ rest) ∧ frames = []))) := by
     intro f hf ⟨part, hl, ho, _⟩
-    exact ⟨part, hl.wire, Or.inl ⟨hf, ho⟩⟩
+    obtain ⟨frames, e1, e2, e3, e4, e5, e6⟩ := hl.wire.unpack
+    exact ⟨frames, part, e1, e2, e3, e4, fun _ => e5, e6, fun _ => hl.log, Or.inl ⟨hf, ho⟩⟩
+  have ofLocal : ∀ {f : Option Pc} {which : Nat} {bytes : Bytes}, which ≠ 0 → LocalPre v which bytes →
+      (f = some (.q0Write bytes) ∨ f = some (.discWrite bytes)) →
+      ∃ (frames : List Bytes) (part : Bytes), v.wire = frames.flatten ++ part ∧ (∀ f ∈ frames, Framed f) ∧
+      (∀ f ∈ frames.head?, IsConnect f) ∧ (∀ f ∈ frames.drop 1, Fits v.lim f.length) ∧ (v.live = true → frames ≠ []) ∧
+      (v.log.map (·.bytes)).Sublist (frames.drop 1) ∧ (v.live = true → v.o.Log v.ord v.log) ∧
+      ((tearsPacket f = false ∧ v.o.OState v.ok part) ∨
+       (∃ rest, (f = some (.connWrite rest) ∨ f = some (.q0Write rest) ∨ f = some (.discWrite rest)) ∧
+          Framed (part ++ rest) ∧ v.o.Quiet ∧ (v.live = true → Fits v.lim (part ++ rest).length) ∧
+          (f = some (.connWrite rest) → IsConnect (part ++ rest) ∧ frames = []))) := by
+    intro f which bytes hw ⟨_, _, hq, h4⟩ hf
+    rcases h4 with ⟨h0, _⟩ | ⟨_, _, pre, hl, hfr, hfit⟩
+    · exact (hw h0).elim
+    · obtain ⟨frames, e1, e2, e3, e4, e5, e6⟩ := hl.wire.unpack
+      refine ⟨frames, pre, e1, e2, e3, e4, fun _ => e5, e6, fun _ => hl.log, Or.inr ⟨bytes, ?_, hfr, hq, fun _ => hfit, ?_⟩⟩
+      · rcases hf with hf | hf
+        · exact Or.inr (Or.inl hf)
+        · exact Or.inr (Or.inr hf)
+      · intro hc
+        rcases hf with hf | hf <;> (rw [hf] at hc; cases hc)
+  have ofHand : LocalFlushPre v 0 → ∀ {f : Option Pc}, tearsPacket f = false →
+      ∃ (frames : List Bytes) (part : Bytes), v.wire = frames.flatten ++ part ∧ (∀ f ∈ frames, Framed f) ∧
+      (∀ f ∈ frames.head?, IsConnect f) ∧ (∀ f ∈ frames.drop 1, Fits v.lim f.length) ∧ (v.live = true → frames ≠ []) ∧
+      (v.log.map (·.bytes)).Sublist (frames.drop 1) ∧ (v.live = true → v.o.Log v.ord v.log) ∧
+      ((tearsPacket f = false ∧ v.o.OState v.ok part) ∨
+       (∃ rest, (f = some (.connWrite rest) ∨ f = some (.q0Write rest) ∨ f = some (.discWrite rest)) ∧
+          Framed (part ++ rest) ∧ v.o.Quiet ∧ (v.live = true → Fits v.lim (part ++ rest).length) ∧
+          (f = some (.connWrite rest) → IsConnect (part ++ rest) ∧ frames = []))) := by
+    intro hh f hf
+    have hdead := hh.dead
+    obtain ⟨_, _, hq, h4⟩ := hh
+    rcases h4 with ⟨_, hc, hfr, hcc⟩ | ⟨h0, _⟩
+    · have hnl : v.live = true → False := fun hl => by rw [hl] at hdead; cases hdead
+      exact ⟨[v.wire], [], by simp, by simpa using hfr, by simpa using hcc, by simp, fun _ => by simp,
+        by rw [hc.log]; simp, fun hl => (hnl hl).elim, Or.inl ⟨hf, .quiet hq⟩⟩
+    · exact (h0 rfl).elim
   cases fut with
   | none =>
     rcases PhaseV_none_cases h with ⟨_, hf⟩ | ⟨hd, _⟩
@@ -727,26 +940,20 @@ theorem PhaseV_wire {v : View} {fut : Option Pc} (h : PhaseV v fut)
     | stepWrite ctx pkt bytes written len now => obtain ⟨step, hp, _⟩ := h; exact ofFlush rfl hp.flushPre
     | stepFlush ctx pkt now => obtain ⟨step, hp, _⟩ := h; exact ofFlush rfl hp.flushPre
     | connWrite bytes =>
-      obtain ⟨_, _, hq, _, pre, hw, hfr⟩ := h
-      exact ⟨pre, hw, Or.inr ⟨bytes, Or.inl rfl, hfr, hq⟩⟩
-    | connFlush =>
-      obtain ⟨_, _, hq, _, hw⟩ := h
-      exact ⟨[], hw, Or.inl ⟨rfl, .quiet hq⟩⟩
-    | connRead =>
-      obtain ⟨_, _, hq, _, hw⟩ := h
-      exact ⟨[], hw, Or.inl ⟨rfl, .quiet hq⟩⟩
-    | q0Write bytes =>
-      obtain ⟨_, _, hq, _, pre, hw, hfr⟩ := h
-      exact ⟨pre, hw, Or.inr ⟨bytes, Or.inr (Or.inl rfl), hfr, hq⟩⟩
-    | q0Flush =>
-      obtain ⟨_, _, hq, _, hw⟩ := h
-      exact ⟨[], hw, Or.inl ⟨rfl, .quiet hq⟩⟩
-    | discWrite bytes =>
-      obtain ⟨_, _, hq, _, pre, hw, hfr⟩ := h
-      exact ⟨pre, hw, Or.inr ⟨bytes, Or.inr (Or.inr rfl), hfr, hq⟩⟩
-    | discFlush =>
-      obtain ⟨_, _, hq, _, hw⟩ := h
-      exact ⟨[], hw, Or.inl ⟨rfl, .quiet hq⟩⟩
+      have hdead := LocalPre.dead h
+      obtain ⟨_, _, hq, h4⟩ := h
+      rcases h4 with ⟨_, hc, hfr, hcc⟩ | ⟨h0, _⟩
+      · have hnl : v.live = true → False := fun hl => by rw [hl] at hdead; cases hdead
+        exact ⟨[], v.wire, by simp, by simp, by simp, by simp, fun hl => (hnl hl).elim, by rw [hc.log]; simp,
+          fun hl => (hnl hl).elim,
+          Or.inr ⟨bytes, Or.inl rfl, hfr, hq, fun hl => (hnl hl).elim, fun _ => ⟨hcc, rfl⟩⟩⟩
+      · exact (h0 rfl).elim
+    | connFlush => exact ofHand h rfl
+    | connRead => exact ofHand h rfl
+    | q0Write bytes => exact ofLocal (which := 1) (by decide) h (Or.inl rfl)
+    | q0Flush => exact ofFlush rfl (LocalFlushPre.flushPre h (by decide))
+    | discWrite bytes => exact ofLocal (which := 2) (by decide) h (Or.inr rfl)
+    | discFlush => exact ofFlush rfl (LocalFlushPre.flushPre h (by decide))
     | waitRead outer deadline yielded => exact ofFlush rfl (h.1.flushPre h.2)
 
 /-! ### The ghost mark and the older transports -/
@@ -882,6 +1089,34 @@ theorem Outbound.Slot.onePartial {o : Outbound} {step : Outbound.Step} {n : Nat}
     · exact (hpre x hm).2
     · exact hpost x hm
 
+/-- The invariant, read off for the current transport, with sizes: the first whole packet is the
+CONNECT, every later one is within the Maximum Packet Size `w.sess.rt.maximumPacketSize` of the
+current connection, and so is the packet in progress. -/
+theorem WInv.wire_full {w : World} (h : WInv w) (hnt : w.nets.length ∉ w.tornNets)
+    (hact : w.live = true ∨ (w.conn = none ∧ w.fut.isSome = true)) :
+    ∃ (frames : List Bytes) (part : Bytes), w.curNet.wire = frames.flatten ++ part ∧ (∀ f ∈ frames, Framed f) ∧
+      (∀ f ∈ frames.head?, IsConnect f) ∧ (∀ f ∈ frames.drop 1, Fits w.sess.rt.maximumPacketSize f.length) ∧
+      (w.live = true → frames ≠ []) ∧
+      ((part = [] ∧ tearsPacket w.fut = false ∧ w.sess.data.outbound.NoPartial) ∨
+       (∃ n bytes, part = bytes.take (n + 1) ∧ n + 1 < bytes.length ∧ Framed bytes ∧
+          Fits w.sess.rt.maximumPacketSize bytes.length ∧ tearsPacket w.fut = false ∧
+          w.sess.data.outbound.OnePartial n bytes) ∨
+       (∃ rest, (w.fut = some (.connWrite rest) ∨ w.fut = some (.q0Write rest) ∨ w.fut = some (.discWrite rest)) ∧
+          Framed (part ++ rest) ∧ w.sess.data.outbound.NoneInProgress ∧
+          (w.live = true → Fits w.sess.rt.maximumPacketSize (part ++ rest).length) ∧
+          (w.fut = some (.connWrite rest) → IsConnect (part ++ rest) ∧ frames = []))) := by
+  rcases h.cur with ht | hp
+  · exact (hnt ht).elim
+  · obtain ⟨frames, part, hw, hfr, hhead, hfits, hne, _, _, hcase⟩ := PhaseV_wire hp hact
+    refine ⟨frames, part, hw, hfr, hhead, hfits, hne, ?_⟩
+    rcases hcase with ⟨hf, ho⟩ | ⟨rest, hfut, hfr2, hq, hfit, hconn⟩
+    · cases ho with
+      | quiet hq => exact Or.inl ⟨rfl, hf, hq.noneInProgress.noPartial⟩
+      | flushing step hs hst => exact Or.inl ⟨rfl, hf, hs.noPartial hst⟩
+      | writing step n bytes hs hst hb hn hfb hok =>
+        exact Or.inr (Or.inl ⟨n, bytes, rfl, hn, hfb, hok, hf, hs.onePartial hst hb⟩)
+    · exact Or.inr (Or.inr ⟨rest, hfut, hfr2, hq.noneInProgress, hfit, hconn⟩)
+
 /-- The invariant, read off for the current transport. -/
 theorem WInv.wire {w : World} (h : WInv w) (hnt : w.nets.length ∉ w.tornNets)
     (hact : w.live = true ∨ (w.conn = none ∧ w.fut.isSome = true)) :
@@ -891,16 +1126,12 @@ theorem WInv.wire {w : World} (h : WInv w) (hnt : w.nets.length ∉ w.tornNets)
           w.sess.data.outbound.OnePartial n bytes) ∨
        (∃ rest, (w.fut = some (.connWrite rest) ∨ w.fut = some (.q0Write rest) ∨ w.fut = some (.discWrite rest)) ∧
           Framed (part ++ rest) ∧ w.sess.data.outbound.NoneInProgress)) := by
-  rcases h.cur with ht | hp
-  · exact (hnt ht).elim
-  · obtain ⟨part, ⟨frames, hfr, hw⟩, hcase⟩ := PhaseV_wire hp hact
-    refine ⟨frames, part, hw, hfr, ?_⟩
-    rcases hcase with ⟨hf, ho⟩ | ⟨rest, hfut, hfr2, hq⟩
-    · cases ho with
-      | quiet hq => exact Or.inl ⟨rfl, hf, hq.noneInProgress.noPartial⟩
-      | flushing step hs hst => exact Or.inl ⟨rfl, hf, hs.noPartial hst⟩
-      | writing step n bytes hs hst hb hn hfb => exact Or.inr (Or.inl ⟨n, bytes, rfl, hn, hfb, hf, hs.onePartial hst hb⟩)
-    · exact Or.inr (Or.inr ⟨rest, hfut, hfr2, hq.noneInProgress⟩)
+  obtain ⟨frames, part, hw, hfr, _, _, _, hcase⟩ := h.wire_full hnt hact
+  refine ⟨frames, part, hw, hfr, ?_⟩
+  rcases hcase with h1 | ⟨n, bytes, a, b', c, _, d, e⟩ | ⟨rest, a, b', c, _⟩
+  · exact Or.inl h1
+  · exact Or.inr (Or.inl ⟨n, bytes, a, b', c, d, e⟩)
+  · exact Or.inr (Or.inr ⟨rest, a, b', c⟩)
 
 /-- The invariant, read off for every transport ever opened. -/
 theorem WInv.all_wires {w : World} (h : WInv w) (i : Nat) (net : Net) (hg : w.nets[i]? = some net)
@@ -915,6 +1146,118 @@ theorem WInv.all_wires {w : World} (h : WInv w) (i : Nat) (net : Net) (hg : w.ne
     rcases h.cur with ht | hp
     · exact (hnt (by rw [heq]; exact ht)).elim
     · rw [← curNet_of_last w i net heq hg]
-      exact PhaseV_pfx hp
+      exact (PhaseV_pfx hp).1
+
+/-! ### The Maximum Packet Size changes only when a CONNACK is accepted -/
+
+/-- Of all the primitives through which the operations change the session, only `activate` (the
+second half of `connect_handshake`, after a successful CONNACK) touches the Maximum Packet Size. -/
+theorem Prim.mps {s s' : Session} (h : Prim s s') :
+    s'.rt.maximumPacketSize = s.rt.maximumPacketSize ∨ ∃ sp block now, s' = (s.activate sp block now).1 := by
+  cases h with
+  | queuePing _ now _ hq => left; rw [queuePing_rt hq]
+  | completeFlush _ pkt now => exact Or.inl (completeFlush_mps _ _ _)
+  | setWritten _ pkt a c => exact Or.inl rfl
+  | takePkt => exact Or.inl (takePkt_mps _)
+  | handle _ p => exact Or.inl (handle_mps _ _)
+  | handleDisconnect => exact Or.inl rfl
+  | activate _ sp block now => exact Or.inr ⟨sp, block, now, rfl⟩
+  | alloc => left; rw [alloc_rt]
+  | encodeConnect _ c => left; rw [encode_rt]
+  | encodeAfterAlloc _ enc he => left; rw [alloc_encode_rt]
+  | encodeScratch _ enc he => left; rw [encode_rt]
+  | enqueue _ enc off len isPub _ typ he ht hp hq hres hr => left; rw [retain_mps hr, alloc_encode_rt]
+  | clearPing => exact Or.inl rfl
+  | noteActivity _ now => exact Or.inl rfl
+  | window _ _ n hw => exact Or.inl (window_mps hw)
+  | commit _ bytes => exact Or.inl rfl
+  | beginConnect => exact Or.inl rfl
+  | setPid _ n h1 h2 => exact Or.inl rfl
+
+/-! ### The log of the current transport against the wire and the retained queue -/
+
+/-- The invariant, read off for the transmission log of the current transport of a live connection:
+the logged packets are on the wire behind the CONNECT, in order, and the log agrees with the retained queue. -/
+theorem WInv.curLog {w : World} (h : WInv w) (hnt : w.nets.length ∉ w.tornNets) (hl : w.live = true) :
+    (∃ (frames : List Bytes) (part : Bytes), w.curNet.wire = frames.flatten ++ part ∧ (∀ f ∈ frames, Framed f) ∧
+        (w.curLog.map (·.bytes)).Sublist (frames.drop 1)) ∧
+    w.sess.data.outbound.Log w.nets.length w.curLog := by
+  rcases h.cur with ht | hp
+  · exact (hnt ht).elim
+  · obtain ⟨frames, part, hw, hfr, _, _, _, hsub, hlog, _⟩ := PhaseV_wire hp (Or.inl hl)
+    exact ⟨⟨frames, part, hw, hfr, hsub⟩, hlog hl⟩
+
+/-- In a log whose serials increase, the entry with the smaller serial comes first. -/
+theorem sublist_pair_of_sorted {l : List LogEntry} (hs : (sers l).Pairwise (· < ·)) {f g : LogEntry} {s t : Nat}
+    (hf : f ∈ l) (hg : g ∈ l) (hfs : f.ser? = some s) (hgt : g.ser? = some t) (hlt : s < t) : [f, g].Sublist l := by
+  induction l with
+  | nil => simp at hf
+  | cons x xs ih =>
+    have hs' : (sers xs).Pairwise (· < ·) := by
+      simp only [sers, List.filterMap_cons] at hs
+      split at hs
+      · exact hs
+      · exact (List.pairwise_cons.mp hs).2
+    rcases List.mem_cons.mp hg with rfl | hg'
+    · -- `g` is the head: then `f` cannot be behind it
+      rcases List.mem_cons.mp hf with rfl | hf'
+      · rw [hfs] at hgt; cases hgt; omega
+      · exfalso
+        simp only [sers, List.filterMap_cons, hgt] at hs
+        have := (List.pairwise_cons.mp hs).1 s (by
+          simp only [List.mem_filterMap]; exact ⟨f, hf', hfs⟩)
+        omega
+    · rcases List.mem_cons.mp hf with rfl | hf'
+      · exact List.Sublist.cons_cons _ (List.singleton_sublist.mpr hg')
+      · exact (ih hs' hf' hg').cons _
+
+/-! ### The log is append-only -/
+
+theorem wstable_logPrefix (l0 : List LogEntry) : WStable (fun x => l0 <+: x.log) where
+  emit := fun _ _ h => h
+  sess := fun _ _ h => h
+  fut := fun _ _ h => h
+  conn := fun _ _ h => h
+  slot := fun _ _ h => h
+  starved := fun _ _ h => h
+  wakes := fun _ _ h => h
+  lastRes := fun _ _ h => h
+  handles := fun _ _ h => h
+  setCurNet := fun _ _ h => h
+  log := fun _ _ _ h => h.trans (List.prefix_append _ _)
+
+/-- No directive ever removes or alters an entry of the transmission log. -/
+theorem exec_log_prefix (w : World) (d : Directive) : w.log <+: (w.execDirective d).log := by
+  have hcancel : ∀ x : World, w.log <+: x.log → w.log <+: x.cancelFut.log := by
+    intro x hx
+    unfold World.cancelFut
+    split
+    · exact hx
+    · exact hx
+  by_cases hd : d = .connect
+  · subst hd
+    show w.log <+: w.startConnect.log
+    rw [startConnect_eq]
+    have h1 : ∀ S : Session, w.log <+: ({ w.connectStart with sess := S } : World).log := by
+      intro S
+      show w.log <+: w.connectStart.log
+      rw [connectStart_log]; exact List.prefix_refl _
+    simp only []
+    split
+    · exact (wstable_logPrefix w.log).finishErr _ _ _ (h1 _)
+    · exact (wmachine (wstable_logPrefix w.log) pollFuel).2.2.2.2.2.2.1 _ _ _ (h1 _)
+  · exact wexec_noconnect (wstable_logPrefix w.log) w (hcancel w) (fun _ _ h => h) d (fun he => hd he) (List.prefix_refl _)
+
+/-- On every transport that is not marked torn — the current one or an earlier one — the retained
+packets in its part of the log have strictly increasing serials. -/
+theorem WInv.log_sorted {w : World} (h : WInv w) (k : Nat) (hk1 : 1 ≤ k) (hk : k ≤ w.nets.length) (hnt : k ∉ w.tornNets) :
+    (sers (w.log.filter (fun f => f.net == k))).Pairwise (· < ·) := by
+  by_cases hlt : k < w.nets.length
+  · exact h.oldLog k hk1 hlt hnt
+  · have heq : k = w.nets.length := by omega
+    subst heq
+    rcases h.cur with ht | hp
+    · exact (hnt ht).elim
+    · exact (PhaseV_pfx hp).2
 
 end Minimq
